@@ -195,7 +195,7 @@ def harness_lines(rng, g, want_all=True):
     tot = sum(w for _, _, w in g[1])
     lines = ["M D 0 all " + gt]
     if 2 * tot < INT_LIMIT and rng.random() < 0.5: lines.append("M I 0 all " + gt)
-    if rng.random() < 0.2: lines.append("M D %d all %s" % (rng.choice([-3, -20, 5, 30]), gt))
+    if rng.random() < 0.3: lines.append("M D %d all %s" % (rng.choice([-3, -20, 5, 30, -60, -200, -300, 100, 300]), gt))   # all exact: powers of two, no over/underflow
     return lines
 
 
